@@ -209,6 +209,10 @@ mut('C08', 'failing_step_left_running_during_stop', S, """							node.setStatus(
 							sc.setLastError(execErr)
 						case node.data.Step.RetryPolicy != nil""", """							sc.setLastError(execErr)
 						case node.data.Step.RetryPolicy != nil""")
+mut('C05', 'signal_done_when_only_marked_canceled', S, """		for g.IsRunning() || g.isStopping() {""", """		for g.IsRunning() {""")
+mut('C05', 'stopping_ignores_unfinished_steps', N, """	return n.data.State.Status == NodeStatusCancel &&
+		n.data.State.FinishedAt.IsZero() && n.cmd != nil""", """	return n.data.State.Status == NodeStatusCancel &&
+		!n.data.State.FinishedAt.IsZero() && n.cmd != nil""")
 # ---- C10
 mut('C10', 'interrupted_steps_not_reset', G, """				dict[u] == NodeStatusCancel || dict[u] == NodeStatusRunning {""", """				dict[u] == NodeStatusCancel {""")
 mut('C10', 'canceled_steps_not_reset', G, """			if retry[u] || dict[u] == NodeStatusError ||
